@@ -17,8 +17,19 @@ MAX_ROUNDS = 4
 MAX_CALLEE_BLOCKS = 400
 
 
+_CAPS = None   # while a closure body is spliced: operands the closure value was built from (captured variables)
+
+
 def _place(pj, lm):
-    return [lm(pj[0]), [([p[0], lm(p[1])] + list(p[2:])) if p and p[0] == "index" else p for p in pj[1]]]
+    proj = [([p[0], lm(p[1])] + list(p[2:])) if p and p[0] == "index" else p for p in pj[1]]
+    if _CAPS is not None and pj[0] == 1 and len(proj) >= 2 and proj[0][0] == "deref" and proj[1][0] == "field":
+        proj = proj[1:]          # closure taken by reference: `(*_1).i`
+    if _CAPS is not None and pj[0] == 1 and proj and proj[0][0] == "field" and isinstance(proj[0][1], int) and proj[0][1] < len(_CAPS):
+        cap = _CAPS[proj[0][1]]
+        if cap[0] in ("copy", "move"):
+            # `_1.i` of the closure body is the i-th captured operand of the caller
+            return [cap[1][0], list(cap[1][1]) + proj[1:]]
+    return [lm(pj[0]), proj]
 
 
 def _const(cj, prom_off):
@@ -286,3 +297,231 @@ def apply(fx, inventory):
         if attr in fx.__dict__:
             fx.__dict__.pop(attr, None)
     return sorted(new[h].sname for h in done)
+
+
+# ---------------------------------------------------------------------------------------------------------------------
+# Option / Result combinators whose closure decides a verdict.
+#
+# `opt.is_some_and(|x| c(x))` is `match opt { Some(x) => c(x), None => false }`: the comparison `c` is a guard of the caller
+# exactly as it would be in an `if let`. The call is replaced by that match, with the closure body spliced in (its captured
+# variables `_1.i` become the caller's operands the closure value was built from), so path / dominance / guard rules see the
+# comparison where it is evaluated. Handled: Option::{is_some_and, is_none_or, map_or, filter}, Result::{is_ok_and, is_err_and}.
+# The rewrite preserves behaviour (it is the definition of these functions in core), so a rule holds on the rewritten body
+# exactly when it holds on the original.
+
+_COMBINATORS = {
+    # def path suffix: (adt, variant evaluated by the closure, its index, what the other variant gives)
+    "option::{impl#0}::is_some_and": ("std::option::Option", "Some", 1, ("bool", 0)),
+    "option::{impl#0}::is_none_or": ("std::option::Option", "Some", 1, ("bool", 1)),
+    "option::{impl#0}::map_or": ("std::option::Option", "Some", 1, ("arg", 1)),
+    "option::{impl#0}::filter": ("std::option::Option", "Some", 1, ("filter", None)),
+    "result::{impl#0}::is_ok_and": ("std::result::Result", "Ok", 0, ("bool", 0)),
+    "result::{impl#0}::is_err_and": ("std::result::Result", "Err", 1, ("bool", 0)),
+}
+
+
+def _combinator_spec(callee):
+    d = (callee or {}).get("def") or ""
+    for k, v in _COMBINATORS.items():
+        if d.endswith(k) and d.startswith("core::"):
+            return k.split("::")[-1], v
+    return None, None
+
+
+def _closure_value(mj, local):
+    """(closure def name, captured operands) when `local` is assigned exactly once, by a closure aggregate"""
+    found = None
+    n = 0
+    for blk in mj["blocks"]:
+        for s in blk["s"]:
+            if s.get("k") == "assign" and s["lhs"][0] == local and not s["lhs"][1]:
+                n += 1
+                rv = s["rv"]
+                if rv[0] == "aggregate" and rv[1].get("k") == "closure":
+                    found = (rv[1].get("def"), rv[2])
+        t = blk.get("t") or {}
+        if t.get("k") == "call" and t.get("dest") and t["dest"][0] == local and not t["dest"][1]:
+            n += 1
+    return found if n == 1 else None
+
+
+def _splice(f, hj, args, dest, target, unwind_to, line, prom_off, caps=None):
+    """append a copy of hj's blocks to f (in place): a prologue block assigns `args` to the parameters, every `return` goes to
+    a landing block that moves the result into `dest` and continues at `target`. Returns the prologue block index."""
+    global _CAPS
+    nloc = len(f["locals"])
+    nblk = len(f["blocks"])
+    hlocals = hj["locals"]
+    # the closure's return place *is* the destination (when that is a plain local): every assignment to the result is then an
+    # assignment to the caller's variable, and a result decided on several paths stays one level of definitions
+    direct = not dest[1]
+    lm = (lambda l: dest[0] if l == 0 else l + nloc) if direct else (lambda l: l + nloc)
+    first = nblk + 1
+    landing = first + len(hj["blocks"])
+    bm = lambda b: b + first
+    f["locals"] = f["locals"] + list(hlocals)
+    _CAPS = caps
+    try:
+        f["names"] = f["names"] + [[n, _place(p, lm)] for n, p in hj["names"]]
+        pro = []
+        for i, a in enumerate(args):
+            if i + 1 < len(hlocals) and i < hj["arg_count"]:
+                pro.append({"k": "assign", "lhs": [lm(i + 1), []], "rv": ["use", a], "line": line, "exp": None})
+        f["blocks"].append({"s": pro, "t": {"k": "goto", "target": bm(0), "line": line, "exp": None}, "cleanup": False})
+        for hb in hj["blocks"]:
+            nb = {"s": [_stmt(s, lm, prom_off) for s in hb["s"]], "t": _term(hb.get("t"), lm, bm, prom_off), "cleanup": bool(hb.get("cleanup"))}
+            t = nb["t"] or {}
+            if t.get("k") == "return":
+                nb["t"] = {"k": "goto", "target": landing, "line": t.get("line"), "exp": t.get("exp")}
+            elif t.get("k") == "resume" and unwind_to is not None:
+                nb["t"] = {"k": "goto", "target": unwind_to, "line": t.get("line"), "exp": t.get("exp")}
+            f["blocks"].append(nb)
+    finally:
+        _CAPS = None
+    land = [] if direct else [{"k": "assign", "lhs": dest, "rv": ["use", ["move", [lm(0), []]]], "line": line, "exp": None}]
+    f["blocks"].append({"s": land, "t": {"k": "goto", "target": target, "line": line, "exp": None}, "cleanup": False})
+    return nblk
+
+
+def expand_combinator(fj, bb, name, spec, kj, caps, prom_off):
+    """fj: caller MIR json; block bb ends in the combinator call; kj: the closure's MIR json. Returns the new caller json."""
+    adt, variant, vidx, other = spec
+    f = copy.deepcopy(fj)
+    call = f["blocks"][bb]["t"]
+    line = call.get("line")
+    args = call["args"]
+    opt = args[0]
+    clos = args[-1]
+    if opt[0] not in ("copy", "move") or call.get("target") is None or "dest" not in call:
+        raise ValueError("shape")
+    dest, target, unwind_to = call["dest"], call["target"], call.get("unwind")
+    opt_place = opt[1]
+    if opt_place[1]:
+        raise ValueError("projected receiver")
+    opt_ty = f["locals"][opt_place[0]]
+    ref_arg = name == "filter"
+    # the payload type is the closure's parameter type (behind a reference for `filter`)
+    ptys = kj["locals"]
+    if kj["arg_count"] < 2 or len(ptys) < 3:
+        raise ValueError("closure arity")
+    pty = ptys[2]
+    if ref_arg:
+        pty = pty[1:].lstrip() if pty.startswith("&") else pty
+    payload = [opt_place[0], [["downcast", variant, vidx], ["field", 0, adt, variant, "0", pty]]]
+    d = len(f["locals"])
+    f["locals"] = f["locals"] + ["isize"]
+    f["blocks"][bb]["s"] = list(f["blocks"][bb]["s"]) + [{"k": "assign", "lhs": [d, []], "rv": ["discr", opt_place, opt_ty], "line": line, "exp": None}]
+
+    def block(stmts, term):
+        f["blocks"].append({"s": stmts, "t": term, "cleanup": False})
+        return len(f["blocks"]) - 1
+
+    def goto(b):
+        return {"k": "goto", "target": b, "line": line, "exp": None}
+
+    def assign(lhs, rv):
+        return {"k": "assign", "lhs": lhs, "rv": rv, "line": line, "exp": None}
+
+    if other[0] == "bool":
+        other_blk = block([assign(dest, ["use", ["const", {"ty": "bool", "v": other[1]}]])], goto(target))
+        some_blk = _splice(f, kj, [clos, ["move", payload]], dest, target, unwind_to, line, prom_off, caps)
+    elif other[0] == "arg":
+        other_blk = block([assign(dest, ["use", args[other[1]]])], goto(target))
+        some_blk = _splice(f, kj, [clos, ["move", payload]], dest, target, unwind_to, line, prom_off, caps)
+    else:  # filter: Some(x) if pred(&x) => Some(x), _ => None
+        none_rv = ["aggregate", {"k": "adt", "adt": adt, "variant": "None", "vidx": 0, "fields": []}, []]
+        other_blk = block([assign(dest, none_rv)], goto(target))
+        keep_rv = ["aggregate", {"k": "adt", "adt": adt, "variant": "Some", "vidx": 1, "fields": ["0"]}, [["move", payload]]]
+        keep_blk = block([assign(dest, keep_rv)], goto(target))
+        r = len(f["locals"])
+        f["locals"] = f["locals"] + ["&" + pty, "bool"]
+        test_blk = block([], {"k": "switch", "discr": ["copy", [r + 1, []]], "discr_ty": "bool", "arms": [[0, other_blk]], "otherwise": keep_blk, "line": line, "exp": None})
+        pro = _splice(f, kj, [clos, ["move", [r, []]]], [r + 1, []], test_blk, unwind_to, line, prom_off, caps)
+        some_blk = block([assign([r, []], ["ref", "shared", payload])], goto(pro))
+    f["blocks"][bb]["t"] = {"k": "switch", "discr": ["move", [d, []]], "discr_ty": "isize", "arms": [[vidx, some_blk]], "otherwise": other_blk,
+                            "line": line, "exp": call.get("exp")}
+    return f
+
+
+def _depth(fx, b):
+    n = 0
+    while getattr(b, "parent", None) and b.parent in fx.bodies and n < 20:
+        b = fx.bodies[b.parent]
+        n += 1
+    return n
+
+
+def expand_combinators(fx):
+    """Rewrite every verdict combinator call whose closure is defined in the crate; returns the list of `caller: combinator`."""
+    done = []
+    order = sorted(fx.bodies.values(), key=lambda b: -_depth(fx, b))   # inner closures first
+    for b in order:
+        if b.id not in fx.bodies or "::tests::" in b.sname or b.derived:
+            continue
+        if not any(x.endswith(("::is_some_and", "::is_none_or", "::map_or", "::filter", "::is_ok_and", "::is_err_and"))
+                   for x in (strip_generics(c) or "" for c in (b.sum_calls or ()))):
+            continue
+        try:
+            fj = b._full()
+        except Exception:
+            continue
+        mj0 = b.__dict__.get("_inl_json") or fj["mir"]
+        mj = mj0
+        prom = list(b.__dict__.get("_inl_prom") or fj.get("promoted", []))
+        skip = set()
+        progressed = True
+        while progressed:
+            progressed = False
+            for bi, blk in enumerate(mj["blocks"]):
+                t = blk.get("t") or {}
+                if t.get("k") != "call" or blk.get("cleanup") or bi in skip:
+                    continue
+                name, spec = _combinator_spec(t.get("callee"))
+                if not spec or not t.get("args"):
+                    continue
+                if name == "map_or" and t.get("dest_ty") != "bool":
+                    continue      # only verdicts: a mapped value is left to the rules that follow values through closures
+                clos = t["args"][-1]
+                cv = _closure_value(mj, clos[1][0]) if clos[0] in ("copy", "move") and not clos[1][1] else None
+                kid = fx.bodies.get(cv[0]) if cv else None
+                if kid is None:
+                    skip.add(bi)
+                    continue
+                try:
+                    kj = kid.__dict__.get("_inl_json") or kid._full()["mir"]
+                    if any((x.get("t") or {}).get("k") in ("yield", "coroutine_drop", "tailcall") for x in kj["blocks"]):
+                        raise ValueError("coroutine")
+                    kprom = list(kid.__dict__.get("_inl_prom") or kid._full().get("promoted", []))
+                    mj2 = expand_combinator(mj, bi, name, spec, kj, cv[1], len(prom))
+                    Mir(mj2)
+                except Exception:
+                    skip.add(bi)
+                    continue
+                mj = mj2
+                prom = prom + kprom
+                progressed = True
+                done.append("%s: %s" % (b.sname, name))
+                b.sum_calls = tuple(sorted(set(b.sum_calls or ()) | set(kid.sum_calls or ())))
+                b.sum_writes = tuple(sorted({tuple(x) for x in (b.sum_writes or ())} | {tuple(x) for x in (kid.sum_writes or ())}))
+                b.sum_aggs = tuple(sorted(set(b.sum_aggs or ()) | set(kid.sum_aggs or ())))
+                b.sum_fields = tuple(sorted({tuple(x) for x in (b.sum_fields or ())} | {tuple(x) for x in (kid.sum_fields or ())}))
+                b.sum_edges = tuple(sorted((set(b.sum_edges or ()) | set(kid.sum_edges or ())) - {kid.id}))
+                # the closure body now lives in the caller: it is no longer a separate body of the program
+                if kid in b.children:
+                    b.children.remove(kid)
+                for ch in kid.children:
+                    ch.parent = b.id
+                    if ch not in b.children:
+                        b.children.append(ch)
+                fx.bodies.pop(kid.id, None)
+                break
+        if mj is not mj0:
+            b.__dict__["_inl_json"] = mj
+            b.__dict__["_inl_prom"] = prom
+            b._mir = Mir(mj)
+            b._prom = [Mir(p) for p in prom]
+    if done:
+        for attr in ("_by_name", "_fn_index"):
+            fx.__dict__.pop(attr, None)
+        fx._cg = None
+    return done
